@@ -239,7 +239,9 @@ fn writer_history(ctx: &mut Ctx, ops: &[Op], r: &mut Rng, reads_after_each: bool
                 }
                 Op::Has(_) => ("has", Expect::Exactly(vec![]), vec![]),
                 Op::Info => ("info", Expect::Exactly(vec![]), vec![]),
-                Op::MakeReadOnly => ("make_read_only", Expect::Exactly(vec![]), vec![]),
+                // the property is silent on make_read_only: anything but an availability
+                // announcement is tolerated (handled like a clear of nothing)
+                Op::MakeReadOnly => ("make_read_only", Expect::ClearOf(0, 0), vec![]),
                 Op::Reopen => unreachable!(),
             };
             let label = match (&exp, what) {
@@ -254,6 +256,7 @@ fn writer_history(ctx: &mut Ctx, ops: &[Op], r: &mut Rng, reads_after_each: bool
                     }
                     format!("ev:{w}:[G]")
                 }
+                (Expect::ClearOf(..), w) if w == "make_read_only" => "ev:make_read_only".to_string(),
                 (Expect::ClearOf(..), _) => "ev:clear".to_string(),
             };
             ctx.count(&label);
